@@ -113,6 +113,16 @@ fn gen(rng: &mut Rng, tier: &str) -> Vec<(String, Value)> {
     push("boundary.dump_dirs", vec!["rsync://a/m/x.cer".into()], vec!["https://rsync/n.xml".into(), "https://RSYNC/other.xml".into()]);
     push("boundary.dump_dirs", vec!["rsync://a/m/x".into(), "rsync://a/m/x/y".into(), "rsync://a/m/x/".into(), "rsync://A/m/x".into()],
          vec!["https://a/n.xml".into(), "https://A/other.xml".into(), "https://a-1/n.xml".into()]);
+    // the same URI up to letter case in different places: the authority is case-insensitive, the path is not
+    for hs in [
+        vec!["https://RRDP.example.net/A/notification.xml", "https://rrdp.example.net/a/notification.xml"],
+        vec!["https://rrdp.example.net/A/notification.xml", "https://RRDP.example.net/A/notification.xml", "https://rrdp.example.net/a/notification.xml"],
+        vec!["https://Host.example/Path/N.xml", "https://host.example/path/n.xml", "https://HOST.EXAMPLE/PATH/N.XML", "https://host.example/Path/N.xml"],
+        vec!["HTTPS://a.example/x/Y.xml", "https://A.example/x/y.xml", "https://a.example/X/y.xml"],
+    ] {
+        push("boundary.case_in_path", vec!["rsync://Host.example/Mod/A/b.mft".into(), "rsync://host.example/mod/a/b.mft".into(), "rsync://HOST.example/Mod/a/B.mft".into()],
+             hs.into_iter().map(String::from).collect());
+    }
     // authorities that look like the names the registry generates ("<authority>-<i>"), in every order, also on
     // top of the reserved names
     for hs in [
